@@ -139,6 +139,8 @@ class Env:
                          if c is not None}
     self.spy = None
     self.params = None
+    self.oracle_raised = []
+    self.solver_violations = []
 
   # --- parameters of the run
   def set_params(self, bound, max_diff):
@@ -635,7 +637,15 @@ def run_sigs(env, b, specs, policy_for, tag, cold=True, keep_tables=False, rerun
     line = 'ecall.checksigs %s %s %s %s %s %s' % (H(env.params[0]), H(env.params[1]), toks, caches,
                                                  line_arts, '+'.join(oitems))
     if oracle_raised:
-      env.oracle_raised.append(dict(tag=tag, exc=oracle_raised[0][3]))
+      # a solver raised: no model line (its ANSWER is the model's oracle).  Inside C18's domain (every
+      # known-curve r, s in [1, n-1]) an exception that left the entry point is a VIOLATION with the batch
+      # as replay (review-2 M3: it used to be dropped with a note); outside the domain: the note.
+      v = c02s.solver_raise_violation(env.w, specs, arts, oracle_raised, exc, 'paranoid.CheckAllECDSASigs',
+                                      b.name, line, tag)
+      if v is not None:
+        env.solver_violations.append(v)
+      else:
+        env.oracle_raised.append(dict(tag=tag, exc=oracle_raised[0][3]))
       return
     failure = sig_pred(env, arts, statics, before, after, ret, exc)
     b.add(line, impl, tag=tag + (':rerun' if r_i else '') + (':raises' if exc is not None else ''),
@@ -765,12 +775,21 @@ def part_sigs(env, rep, rng, tier):
   t0 = time.time()
   rep.absorb(b, b.run())
   rep.extra.setdefault('ecall', {})['sigs_model_wall_s'] = round(time.time() - t0, 1)
-  if env.oracle_raised:
-    rep.notes.append('batches skipped because a solver raised (outside the model): %r'
-                     % env.oracle_raised[:5])
+  flush_solver_raises(env, rep, 'ecall')
 
 
 # ----------------------------------------------------------------------------
+
+def flush_solver_raises(env, rep, who):
+  """solver exceptions seen by run_sigs: violations (well-formed batch, exception left the entry point) /
+  notes (batch outside C18's domain or the entry point returned)."""
+  rep.violations.extend(env.solver_violations)
+  env.solver_violations = []
+  if env.oracle_raised:
+    rep.notes.append('%s: batches OUTSIDE the C18 domain (some r or s not in [1, n-1]) skipped because a solver '
+                     'raised (no model line): %r' % (who, env.oracle_raised[:5]))
+  env.oracle_raised = []
+
 
 def part_static(env, rep):
   """the model's tables against the running implementation."""
